@@ -494,5 +494,31 @@ omit [Fact pv.Prime] in
 theorem byte_small_of_min (h : CfgOK c pv) (hmin : B ^ (c.n - 1) ≤ pv) : c.n = 1 ∨ 256 < pv :=
   u64_lt_of_min h hmin (by unfold B; omega)
 
+omit [Fact pv.Prime] in
+/-- the little-endian value of the reversed string is the big-endian Horner value -/
+theorem bytesValueLE_reverse (l : List Nat) :
+    bytesValueLE l.reverse = l.foldl (fun acc b => 256 * acc + b) 0 := by
+  have key : ∀ (l : List Nat) (acc : Nat),
+      l.foldl (fun acc b => 256 * acc + b) acc = bytesValueLE l.reverse + 256 ^ l.length * acc := by
+    intro l
+    induction l with
+    | nil => intro acc; simp [bytesValueLE]
+    | cons b l ih =>
+      intro acc
+      rw [List.foldl_cons, ih, List.reverse_cons, bytesValueLE_append]
+      simp only [bytesValueLE, List.length_reverse, List.length_cons, Nat.pow_succ]
+      ring
+  rw [key l 0]; simp
+
 end
+
+/-! ### a concrete configuration for the non-vacuity examples of Ark/Props/C01f.lean -/
+
+theorem prime13 : Nat.Prime 13 := by decide
+theorem cfg13 : CfgOK (mkCfg true 1 13) 13 := C01.mk_cfg_ok true 1 13 (by decide) (by decide)
+  (by decide) (by decide +kernel)
+theorem elem13 (x : Nat) (hx : x < 13) : Elem (mkCfg true 1 13) 13 [x] :=
+  ⟨rfl, by unfold WF; intro l hl; simp at hl; subst hl; unfold B; omega,
+   by simp only [value]; omega⟩
+
 end Ark.Mont
